@@ -15,7 +15,7 @@ func init() {
 }
 
 func genC01(c *Ctx, r *rng.R, i int) {
-	if i < 14 {
+	if i < 15 {
 		c01Corpus(c, i)
 		return
 	}
@@ -342,6 +342,17 @@ func c01Corpus(c *Ctx, i int) {
 			ow := cty.ObjectVal(map[string]cty.Value{"m": k.unk})
 			c01Pair(c, "ONe", []cty.Value{o, o}, []cty.Value{o, ow}, true)
 		}
+	case 14: // a known value with a dynamic part against a typed unknown (fixed: f29c1fc, 3ea1da3)
+		k := cty.TupleVal([]cty.Value{cty.StringVal("a")})
+		d := cty.TupleVal([]cty.Value{cty.DynamicVal})
+		u := cty.UnknownVal(cty.Tuple([]cty.Type{cty.String}))
+		c01Pair(c, "OEq", []cty.Value{k, k}, []cty.Value{d, u}, true)
+		c01Pair(c, "OEq", []cty.Value{k, k}, []cty.Value{u, d}, true)
+		c01Pair(c, "OEq", []cty.Value{k, k}, []cty.Value{d, u.RefineNotNull()}, true)
+		o := cty.ObjectVal(map[string]cty.Value{"a": cty.ListVal([]cty.Value{cty.Zero})})
+		od := cty.ObjectVal(map[string]cty.Value{"a": cty.DynamicVal})
+		ou := cty.UnknownVal(o.Type())
+		c01Pair(c, "ONe", []cty.Value{o, o}, []cty.Value{od, ou}, true)
 	default: // object with one unknown and one unequal attribute (fixed: order independence)
 		x := cty.ObjectVal(map[string]cty.Value{"a": cty.StringVal("x"), "b": cty.NumberIntVal(1)})
 		y := cty.ObjectVal(map[string]cty.Value{"a": cty.StringVal("x"), "b": cty.NumberIntVal(2)})
